@@ -116,6 +116,7 @@ Qed.
 Lemma valid_chroms_incr i : Valid i -> incr (req_chroms i).
 Proof.
   intros (_ & HS & _). unfold strict_b in HS.
+  apply andb_true_iff in HS. destruct HS as [HS _].
   apply andb_true_iff in HS. destruct HS as [HS _]. apply andb_true_iff in HS. destruct HS as [HS _].
   apply andb_true_iff in HS. destruct HS as [_ HS]. apply strict_incr_incr. exact HS.
 Qed.
